@@ -191,7 +191,7 @@ def _scan_semantics(db, chk, mod, f, make_events, root_of, upto=None):
     # the scan's own state: the local containers / constants initialised in front of the loop (the stack among them); everything else there - timers, sorting,
     # checks of the array - belongs to other rules
     def fresh(v):
-        return isinstance(v, ast.Constant) or (isinstance(v, (ast.List, ast.Set, ast.Tuple)) and not v.elts) or (isinstance(v, ast.Dict) and not v.keys) or \
+        return isinstance(v, ast.Constant) or (isinstance(v, ast.Name) and v.id in getattr(mod, "constants", {})) or (isinstance(v, (ast.List, ast.Set, ast.Tuple)) and not v.elts) or (isinstance(v, ast.Dict) and not v.keys) or \
             (isinstance(v, ast.Call) and H.name_id(v.func) in ("set", "list", "dict", "deque") and not v.args and not v.keywords) or \
             (isinstance(v, ast.Call) and H.name_id(v.func) in mod.classes and all(isinstance(a_, ast.Constant) for a_ in v.args) and all(isinstance(k_.value, ast.Constant) for k_ in v.keywords))          # a small state object
     stmts = [copy.deepcopy(s_) for s_ in blk[:i] if isinstance(s_, (ast.Assign, ast.AnnAssign)) and s_.value is not None and fresh(s_.value)
@@ -204,16 +204,37 @@ def _scan_semantics(db, chk, mod, f, make_events, root_of, upto=None):
     mod.functions[q] = fn
     bad, unknown, n = [], 0, 0
     try:
-        for seq in [s_ for k in range(1, upto + 1) for s_ in _dyck(k)]:
+        seqs = [s_ for k in range(1, upto + 1) for s_ in _dyck(k)]
+        # identical spans: the comparators may leave their two CLOSE endpoints in either order (a tie the order laws allow because the scan pops anonymously) - the scan
+        # is therefore also run with the closes of every pair of directly nested, adjacent-opening events exchanged, and must add the same edges
+        extra = []
+        for s_ in seqs:
+            for i_ in range(len(s_) - 1):
+                if s_[i_][0] == "c" and s_[i_ + 1][0] == "c":
+                    a_, b_ = s_[i_][1], s_[i_ + 1][1]
+                    oa, ob = s_.index(("o", a_)), s_.index(("o", b_))
+                    if ob + 1 == oa:          # b opened right before a: candidates for identical spans
+                        extra.append(s_[:i_] + [("c", b_), ("c", a_)] + s_[i_ + 2:])
+        for seq in seqs + extra:
             edges = []
 
             def hook(I, name, pos, kw, node):
                 if name.endswith("_add_edge"):
                     edges.append(tuple(pos[:2]))
+                    # what _add_edge leaves behind in the node map (a scan that reads parent links back from it instead of keeping a stack sees them)
+                    try:
+                        recv = I.eval(node.func.value) if isinstance(node.func, ast.Attribute) else None
+                    except Exception:
+                        recv = None
+                    nd = recv.attrs.get("nodes") if isinstance(recv, Obj) else None
+                    if isinstance(nd, dict) and len(pos) >= 2 and all(isinstance(x_, int) for x_ in pos[:2]):
+                        nd.setdefault(pos[0], Obj(f"node{pos[0]}", attrs={"parent": root_of, "children": [], "depth": 0}))
+                        nd[pos[1]] = Obj(f"node{pos[1]}", attrs={"parent": pos[0], "children": [], "depth": 0})
+                        nd[pos[0]].attrs["children"].append(pos[1])
                     return None
                 return NotImplemented
             try:
-                runs = Interp(db, call_hook=hook).explore(f"{mod.name}:{q}", lambda I, seq=seq: {"self": Obj("self", cls=(mod, "CallStackGraph"), attrs={"root_index": -7}), evname: make_events(seq)})
+                runs = Interp(db, call_hook=hook).explore(f"{mod.name}:{q}", lambda I, seq=seq: {"self": Obj("self", cls=(mod, "CallStackGraph"), attrs={"root_index": -7, "nodes": {}}), evname: make_events(seq)})
             except AnalysisError:
                 runs = []
             n += 1
@@ -395,6 +416,8 @@ def _builders(db, chk, new, old, OPEN_N, CLOSE_N, START_O, END_O):
     whole = [w for w in writes if H.match(f"{arr}[:] = sorted({arr}.tolist(), key=cmp_to_key($c))", w) is not None or H.match(f"{arr}[:] = sorted({arr}, key=cmp_to_key($c))", w) is not None]
     if ok and not (len(writes) == 1 and len(whole) == 1):
         ok = None          # another sorting scheme (e.g. per run of equal times): not understood
+    if not ok and ok is not None and not (len(uses) == 1 and len(cmpf) == 1 and "cmp_to_key" in ast.unparse(se)):
+        ok = None          # the key function is built some other way (a key class, functools helpers): not recognised - not wrong
     chk.ob("C03.R3-builder", f"{NEW}: sort_events = sorted(..., key=cmp_to_key(-1 if _less_than(x, y) else 1))", ok, new.loc(se), found=[ast.unparse(c) for c in cmpf], accepted="-1 if _less_than(x, y) else 1")
     melt = [c for c in H.calls(f) if isinstance(c.func, ast.Attribute) and c.func.attr == "melt"]
     rep = [c for c in H.calls(f) if isinstance(c.func, ast.Attribute) and c.func.attr == "replace"]
@@ -438,7 +461,7 @@ def _builders(db, chk, new, old, OPEN_N, CLOSE_N, START_O, END_O):
     ok_srt = len(srt2) == 1 and lp2_pos is not None and H.before(srt2[0], lp2_pos) and "cmp_to_key(compare_events)" in ast.unparse(srt2[0]) and not any(k.arg == "reverse" for k in srt2[0].keywords)
     sorts_any = [c for c in H.calls(g) if (isinstance(c.func, ast.Attribute) and c.func.attr == "sort") or H.name_id(c.func) == "sorted"]
     _sort_on_every_path(chk, old, g, srt2, lp2_pos, OLD, is_sort=lambda c: isinstance(c, ast.Call) and "compare_events" in ast.unparse(c))
-    chk.ob("C03.R3-builder", f"{OLD}: the analysed comparator sorts the endpoints before the scan", ok_srt if srt2 else (False if sorts_any else None),
+    chk.ob("C03.R3-builder", f"{OLD}: the analysed comparator sorts the endpoints before the scan", (ok_srt if lp2_pos is not None else None) if srt2 else (False if sorts_any else None),
            old.loc(g), found=[ast.unparse(s)[:120] for s in (srt2 or sorts_any)], accepted="events.sort(key=cmp_to_key(compare_events))",
            why="another sort key is another order of the endpoints: the tie rules decided for compare_events no longer describe the stack that is built")
     ev_fields = None
